@@ -18,11 +18,11 @@ CLAIMED = {
  "C06": K("crash at every seam including mid-transaction; snapshot equality after restart; atomicity invariants at every commit; graceful stop with the real default configuration", "Crash points are sampled per run (between steps, before/after commit, inside a transaction); the first snapshot after restart must equal the last committed one, atomicity invariants hold at every commit, background work resumes, graceful stop keeps the file.", "DESIGN.md 5 C06"),
  "C07": K("fencing / lease monitor on every task transition + task specification", "Claims need the current counter on a claimable task; a holder loses its task only after its (timely renewed) lease, the task timeout or promise completion; counters never decrease and rise exactly on reclaim; finished tasks are absorbing.", "DESIGN.md 5 C07"),
  "C08": K("birth/finish atomicity monitor + per-cycle dispatch rules with the production router and sender worker over simulated transports", "Routed promises are born with their task, completion finishes outstanding tasks in the same transaction, each dispatch cycle obeys the selection rules, tasks are enqueued only after a successful hand-off.", "DESIGN.md 5 C08"),
- "C09": K("lock lease monitor + lock specification", "Mutual exclusion, release only by the holder, expiry only at or after the (timely renewed) lease end, heartbeats change only leases of the caller's locks.", "DESIGN.md 5 C09"),
+ "C09": K("lock lease monitor + lock specification", "Mutual exclusion, release only by the holder, expiry only at or after the (timely renewed) lease end, heartbeats change only leases of the caller's locks; crashes and restarts (30 % of the runs) must leave every held lock in place.", "DESIGN.md 5 C09"),
  "C10": K("occurrence oracle (independent cron walk) on every schedule-row transition", "Every change of a schedule row must be the firing of exactly the next occurrence, not before its time, together with that occurrence's promise carrying the schedule's configuration; creation/deletion rules; clock jumps over many occurrences, crashes mid-cycle.", "DESIGN.md 5 C10"),
  "C11": K("bounded-liveness predicate after a fault-free window whose length is computed from the backlog, swarm over all size knobs", "After clients and faults stop, the server is granted a number of background periods computed from the stored backlog and the batch sizes; afterwards nothing may be overdue and the kernel must be quiescent (one run in three uses the task mix with failing hand-offs).", "DESIGN.md 5 C11"),
  "C12": K("exactly-one-response accounting on the production api/aio queues under tiny queues, subsystem failures and shutdown", "Every submitted request is counted: never two callbacks, exactly one by the end of the run (or lost only to a crash), explicit kernel error codes, graceful shutdown answers everything accepted; a production call that never returns (every goroutine blocked) is reported as a hang with its replay. A second phase runs the production Loop/Signal/Shutdown in a synctest bubble.", "DESIGN.md 5 C12"),
- "C14": K("per-page comparison with the state the page's transaction saw + traversal oracle across pages", "Each page must be the newest-first matching set of the state its search transaction saw, with a cursor iff full; a completed traversal must contain every item that matched throughout exactly once, in order; forged cursors are refused.", "DESIGN.md 5 C14"),
+ "C14": K("per-page comparison with the state the page's transaction saw + traversal oracle across pages", "Each page must be the newest-first matching set of the state its search transaction saw, with a cursor iff full; a completed traversal must contain every item that matched throughout exactly once, in order; forged cursors are refused. Runs start from stored content (4-10 promises, 2-5 schedules with several tags), cursors are followed by the client that holds them.", "DESIGN.md 5 C14"),
  "C19": K("independent receiver resolution function checked against every hand-off of the production router + sender worker", "For every dispatched task the message must reach the transport and address the statement prescribes, with the body naming that exact task; unresolvable addresses must produce failed, retried hand-offs, never a message.", "DESIGN.md 5 C19"),
 }
 CLAIMED["C16"] = ("S", "deterministic simulation with fault injection: store-level refinement against an in-memory reference store, with failing statement positions and a mid-transaction observer",
@@ -38,7 +38,7 @@ CLAIMED["C15"] = K("rendered reply compared with the kernel outcome for every re
 CLAIMED["C20"] = K("hostile-but-legal client data written through one front end and observed through the other, through search, claims, notifications, dispatched bodies and after restart, against byte-exact oracles",
   "Ids with separators, markup, case and whitespace variants and non-ASCII text, arbitrary value bytes, header/tag maps, int64-extreme timeouts; the kernel request must equal the spec (both protocols), rows must equal the request, every body must equal the row, derived ids (scheduled promise ids, task ids) must embed the client id verbatim. Input-dominated property: see DESIGN.md 9.", "DESIGN.md 5 C20, 9")
 CLAIMED["C18"] = ("P", "deterministic simulation: production poll worker loop and HTTP handler in a testing/synctest bubble, one event at a time, against a registry model",
-  "Sequences of connects, client departures, reconnects with the same id, sends (invoke/resume/notify, with and without id), worker stalls inside completion callbacks, slow clients and stops over 2-3 groups and ids with buffer, connection-limit and queue sizes down to 1; every completion and every byte written to a stream is judged against a registry model written from the statement. Seeded sampling: evidence, not proof.",
+  "Sequences of connects, client departures, reconnects with the same id, sends (invoke/resume/notify, with and without id), worker stalls inside completion callbacks, slow clients and stops over 2-3 groups and ids with buffer, connection-limit and queue sizes down to 1; every completion and every byte written to a stream is judged against a registry model written from the statement. A second phase (25 % of the budget) runs the kernel engine with the dispatch mix: the production sender's hand-off to the transports (address handling of the production poll/http workers, and the bytes a transport holds must not change after the hand-off). Seeded sampling: evidence, not proof.",
   "Trusts testing/synctest quiescence; TCP and net/http's server are not involved; schedules in which a select would have two ready cases are not generated.", "DESIGN.md 5 C18")
 
 def hooks_commits():
